@@ -541,7 +541,10 @@ func PredRel(name, a, b string, want OrdSet) Track {
 		if !ok {
 			return false, 0
 		}
-		fset := AnyOrd &^ tset
+		fset := c.EdgeOrd(false)
+		if c.X != a {
+			fset = fset.Flip()
+		}
 		switch {
 		case tset&^want == 0 && fset&want == 0:
 			return true, True
